@@ -206,7 +206,7 @@ class World:
 def histories(rng: random.Random, quick: bool, with_compile: bool) -> List[List[Tuple[Any, ...]]]:
     """Each history: list of ("apply", src, kind) / ("call", m).  Module indices refer to creation order (1 = original)."""
     H: List[List[Tuple[Any, ...]]] = []
-    qkinds = ["q2"] if quick else ["q1", "q2", "q3"]
+    qkinds = ["q1", "q2"] if quick else ["q1", "q2", "q3"]      # q1 = the lossless E8M23 pair (its own code path in quantise: nothing to clip)
     for qk in qkinds:
         # both orders of {us, q} in ONE history, the second with calls between the transforms (stale caches), + repeated calls
         H.append([("call", 1), ("apply", 1, "us"), ("apply", 2, qk), ("call", 3), ("call", 3),
@@ -336,7 +336,9 @@ def tlc_histories(rep: Report, rng: random.Random, quick: bool) -> Tuple[List[Li
         raise common.MachineryError("Transforms_Gen emitted no history")
     rep.extra["tlc_generated_histories_exhaustive_3x3"] = len(small)
     if quick:
-        return rng.sample(small, 30), []
+        pick = rng.sample(small, 30)
+        # the generated histories name the format simulation "q2"; every other one is replayed with the lossless pair q1 instead
+        return [[tuple("q1" if (i % 2 and x == "q2") else x for x in st) for st in h] for i, h in enumerate(pick)], []
     sim = common.run_tlc("Transforms_Gen", "Transforms_Gen_sim.cfg", workers=1, timeout=900, tag="trgensim", simulate="num=400", depth=12, extra=["-seed", str(common.seed() + 1)])
     if sim.violated_invariant:
         raise common.MachineryError(f"Transforms_Gen simulation refuted {sim.violated_invariant}")
